@@ -141,6 +141,10 @@ Next ==
                    [] OTHER               -> s
          /\ outs' = IF e.ev = "Out" /\ ~Known(e.key) THEN Append(outs, <<e.key, e.dig>>) ELSE outs
     /\ (s'.bad # "none" /\ s'.bad # s.bad) => PrintT(<<"VIOLATION_AT", l, s'.bad>>)
+    \* the comparison of complete streams is reported even when an earlier predicate of the same run (which another property
+    \* may own) has already fired
+    /\ LET e == Trace[l] IN (e.ev = "Out" /\ s.bad # "none" /\ Known(e.key) /\ DigOf(e.key) # e.dig)
+                              => PrintT(<<"VIOLATION_AT", l, "C04_output_differs">>)
 
 Spec == Init /\ [][Next]_vars
 
